@@ -322,7 +322,7 @@ func (env *Env) selectField(v Value, name string) Value {
 		if x.Loc == nil {
 			// field of a definitely-nil pointer: arbitrary value (contracts guard
 			// such terms by an implication)
-			return env.selectField(e.materialize(e.fresh("nilfield", BoolSort).S, x.Elem), name)
+			return env.selectField(e.materialize(e.freshName("nilfield"), x.Elem), name)
 		}
 		return env.selectField(e.load(env.st, x.Loc, x.Elem), name)
 	case VStruct:
